@@ -41,6 +41,9 @@ def run(c):
                        "timeout (the behaviour of datasemaphore.Acquire before the repair of finding F10, property C30); not a C15 matter, the call was unblocked by "
                        "stopping the processor and the recorded trace was validated like the others" % (wd, runs))
     c.guard("scenarios_without_watchdog", runs - wd)
+    if stats.get("stalled_scenarios", 0):
+        c.notes.append("%d scenario(s) had an accepted batch that did not finish within 2 s although every check had been answered; "
+                       "C15 has no liveness clause, the processor was stopped and the trace validated as usual" % stats["stalled_scenarios"])
     r = gsp_util.validate_many(c, "gsp", "ProcessorTrace", trace, parallel=W, lines_per_piece=c.pick(6000, 12000))
     c.log("processor: %d scenarios, %d lines validated, %d rejections" % (r["scenarios"], r["validated_lines"], len(r["rejections"])))
     for rej in r["rejections"]:
